@@ -331,6 +331,11 @@ func (m *canaryReleaseManager) doCanaryJump(c *RolloutContext) (jumped bool) {
 			if currentStepStateBackup == v1beta1.CanaryStepStateInit || currentStepStateBackup == v1beta1.CanaryStepStateUpgrade {
 				canaryStatus.CurrentStepState = v1beta1.CanaryStepStateInit
 			}
+			// a "jump" onto the step we are on compares the step with itself: its replicas may just have been changed
+			// by a plan edit (or never been released), so go through the upgrade gate again
+			if nextIndex == currentIndexBackup {
+				canaryStatus.CurrentStepState = v1beta1.CanaryStepStateInit
+			}
 		} else {
 			canaryStatus.CurrentStepState = v1beta1.CanaryStepStateInit
 		}
